@@ -308,4 +308,9 @@ func Or(a, b bool) bool        { return a || b }
 func Not(a bool) bool          { return !a }
 func Implies(a, b bool) bool   { return !a || b }
 
+// EngineOnly marks a harness whose observations rely on engine-side summaries (recording
+// stubs substituted for internal functions); natively the run is skipped and a violation is
+// reported on the engine's verdict alone (the check's config sets no_replay for it).
+func EngineOnly() { panic(SkipPath{"engine-only harness"}) }
+
 func OpaqueString() string { return "<opaque>" }
